@@ -347,7 +347,8 @@ PublishArith == (m.ph = "arith" /\ m.done) => PrintT("@@" \o ToJson([i |-> m.i, 
 ---------------------------------------------------------------------------
 (* Part 2: programs.                                                                                  *)
 (* prog = [pid, params (seq of names), locals (seq of names, params included), body (seq of stmts),   *)
-(*         ty [name |-> "O"|"L"|"B"|"D"|"U"|"S"|"X"]  -- B3 fact: class of entry.type after inference *)
+(*         ty [name |-> "O"|"I"|"S"|"L"|"B"|"D"|"U"|"X"]  -- B3 fact: class of entry.type after inference: *)
+(*            object / int object / str object / C integer / bint / C double / Py_UCS4 / soft complex    *)
 (*         mk, lmk (seqs of names) -- B3 fact: entries with might_overflow in the function scope and   *)
 (*         in the scopes of its lambdas ; inputs (seq of seqs of literals)]                           *)
 (* expr = [k |-> "int"|"flt"|"str"|"bool" ...literal] | [k "name", v] | [k "bin", op, l, r] |         *)
@@ -381,6 +382,7 @@ Ty(e, T) ==
                 b == Ty(e.r, T)
             IN CASE e.op \in {"+", "-", "*", "//", "%"} ->
                         IF Both(a, b, {"L", "D"}) THEN (IF a = "D" \/ b = "D" THEN "D" ELSE "L")
+                        ELSE IF Both(a, b, {"L", "I"}) THEN "I"                      \* a Python int object is involved: object arithmetic, int result
                         ELSE IF e.op = "+" /\ a = "S" /\ b = "S" THEN "S"
                         ELSE IF e.op = "*" /\ a = "S" /\ b = "L" THEN "S"
                         ELSE "O"
@@ -391,9 +393,9 @@ Ty(e, T) ==
                         ELSE IF a = "D" /\ b = "L" THEN "D"
                         ELSE IF a = "D" /\ b = "D" THEN (IF IntegralFltLit(e.r) THEN "D" ELSE "X")
                         ELSE "O"
-                 [] OTHER -> IF a = "L" /\ b = "L" THEN "L" ELSE "O"           \* shifts, bitwise
-      [] e.k \in {"neg", "abs"} -> (LET a == Ty(e.e, T) IN IF a \in {"L", "D"} THEN a ELSE "O")
-      [] e.k = "inv" -> IF Ty(e.e, T) = "L" THEN "L" ELSE "O"
+                 [] OTHER -> IF a = "L" /\ b = "L" THEN "L" ELSE IF Both(a, b, {"L", "I"}) THEN "I" ELSE "O"           \* shifts, bitwise
+      [] e.k \in {"neg", "abs"} -> (LET a == Ty(e.e, T) IN IF a \in {"L", "D", "I"} THEN a ELSE "O")
+      [] e.k = "inv" -> IF Ty(e.e, T) \in {"L", "I"} THEN Ty(e.e, T) ELSE "O"
       [] e.k = "len" -> "L"
       [] e.k \in {"cond", "or", "and", "mm"} ->
             LET a == Ty(e.a, T)
@@ -417,8 +419,9 @@ ExprOK(e, T) ==
                         /\ Ty(e, T) # "X"
       [] e.k \in {"neg", "abs", "inv"} -> ExprOK(e.e, T) /\ ~IsLit(e.e) /\ Ty(e.e, T) \notin {"B", "X"} /\ (e.k = "inv" => Ty(e.e, T) # "D")
       [] e.k = "len" -> ExprOK(e.e, T)
-      [] e.k = "cond" -> ExprOK(e.c, T) /\ ExprOK(e.a, T) /\ ExprOK(e.b, T) /\ (Ty(e.a, T) = Ty(e.b, T) \/ "O" \in {Ty(e.a, T), Ty(e.b, T)})
-      [] e.k \in {"or", "and", "mm"} -> ExprOK(e.a, T) /\ ExprOK(e.b, T) /\ (Ty(e.a, T) = Ty(e.b, T) \/ "O" \in {Ty(e.a, T), Ty(e.b, T)})
+      [] e.k = "cond" -> ExprOK(e.c, T) /\ ExprOK(e.a, T) /\ ExprOK(e.b, T) /\ ~IsLit(e.c) /\ (Ty(e.a, T) = Ty(e.b, T) \/ {"O", "I"} \cap {Ty(e.a, T), Ty(e.b, T)} # {})
+      [] e.k \in {"or", "and", "mm"} -> ExprOK(e.a, T) /\ ExprOK(e.b, T) /\ (e.k = "mm" \/ ~IsLit(e.a))         \* a literal first operand is folded away
+                                        /\ (Ty(e.a, T) = Ty(e.b, T) \/ {"O", "I"} \cap {Ty(e.a, T), Ty(e.b, T)} # {})
       [] e.k = "cmp" -> ExprOK(e.l, T) /\ ExprOK(e.r, T)
       [] e.k = "in" -> ExprOK(e.l, T) /\ \A i \in 1..Len(e.xs) : IsLit(e.xs[i])
       [] e.k = "lam" -> ExprOK(e.e, T)
@@ -584,7 +587,7 @@ Eval(e, env, T, sc) ==
             ELSE IF \E i \in 1..3 : x.vs[i].t = "und" THEN R(Und, x.hz)
             ELSE IF x.vs[1].t # "str" \/ ~IntV(x.vs[2]) \/ ~IntV(x.vs[3]) THEN R(Exc("TypeError"), x.hz)
             ELSE R(StrSlice(x.vs[1].s, AsInt(x.vs[2]), AsInt(x.vs[3])),
-                   x.hz \cup (IF Ty(e.s, T) = "S" /\ ((Ty(e.lo, T) = "O" /\ ~Fits64(AsInt(x.vs[2]))) \/ (Ty(e.hi, T) = "O" /\ ~Fits64(AsInt(x.vs[3]))))
+                   x.hz \cup (IF Ty(e.s, T) = "S" /\ ((Ty(e.lo, T) \in {"O", "I"} /\ ~Fits64(AsInt(x.vs[2]))) \/ (Ty(e.hi, T) \in {"O", "I"} /\ ~Fits64(AsInt(x.vs[3]))))
                               THEN {Hz("typed_slice_bound", "builtin_type_inferred", IF e.s.k = "name" THEN e.s.v ELSE "")} ELSE {}))
       [] e.k = "tup" ->
             LET x == EvalSeq(e.xs, 1, env, T, sc) IN
@@ -704,10 +707,24 @@ MarkB(b) == UNION {MarkS(b[i]) : i \in 1..Len(b)}
 SeqSet(s) == {s[i] : i \in 1..Len(s)}
 
 (* the types of the right-hand sides assigned to a local (MarkParallelAssignments + FlowControl) *)
+\* at inference time a comparison has no C type yet (PrimaryCmpNode.infer_type answers py_object);
+\* abs() is typed by the C overload that fits the exact C type, which the type classes do not carry: "W" = not decided
+RECURSIVE HasAbs(_)
+HasAbs(e) == CASE e.k = "abs" -> TRUE
+               [] e.k \in {"bin", "cmp"} -> HasAbs(e.l) \/ HasAbs(e.r)
+               [] e.k \in {"neg", "inv", "len"} -> HasAbs(e.e)
+               [] e.k \in {"cond", "or", "and", "mm"} -> HasAbs(e.a) \/ HasAbs(e.b)
+               [] OTHER -> FALSE
+TyInf(e, TT) == IF e.k \in {"cmp", "in"} THEN "O" ELSE IF HasAbs(e) THEN "W" ELSE Ty(e, TT)
+RECURSIVE FloatFlavoured(_, _)
+FloatFlavoured(e, TT) ==
+    CASE e.k = "bin" -> e.op = "/" \/ Ty(e.l, TT) = "D" \/ Ty(e.r, TT) = "D" \/ FloatFlavoured(e.l, TT) \/ FloatFlavoured(e.r, TT)
+      [] e.k \in {"neg", "abs"} -> Ty(e.e, TT) = "D" \/ FloatFlavoured(e.e, TT)
+      [] OTHER -> FALSE
 RECURSIVE AsgB(_, _, _)
 AsgS(s, x, TT) ==
-    CASE s.k = "asg" -> IF s.v = x THEN {Ty(s.e, TT)} ELSE {}
-      [] s.k = "aug" -> IF s.v = x THEN {Ty(BinE(s.op, NameE(s.v), s.e), TT)} ELSE {}
+    CASE s.k = "asg" -> IF s.v = x THEN {TyInf(s.e, TT)} ELSE {}
+      [] s.k = "aug" -> IF s.v = x THEN {TyInf(BinE(s.op, NameE(s.v), s.e), TT)} ELSE {}
       [] s.k = "if" -> AsgB(s.t, x, TT) \cup AsgB(s.f, x, TT)
       [] s.k = "forr" -> (IF s.v # x THEN {}
                           ELSE {Ty(s.args[i], TT) : i \in 1..Min(2, Len(s.args))}
@@ -727,6 +744,14 @@ NamesE(e) ==
       [] e.k = "slice" -> NamesE(e.s) \cup NamesE(e.lo) \cup NamesE(e.hi)
       [] e.k = "tup" -> UNION {NamesE(e.xs[i]) : i \in 1..Len(e.xs)}
       [] OTHER -> {}
+RECURSIVE RhsB(_, _)         \* the expressions assigned to x by plain / augmented assignments
+RhsS(s, x) ==
+    CASE s.k = "asg" -> IF s.v = x THEN {s.e} ELSE {}
+      [] s.k = "aug" -> IF s.v = x THEN {BinE(s.op, NameE(x), s.e)} ELSE {}
+      [] s.k = "if" -> RhsB(s.t, x) \cup RhsB(s.f, x)
+      [] s.k \in {"forr", "fors"} -> RhsB(s.b, x)
+      [] OTHER -> {}
+RhsB(b, x) == UNION {RhsS(b[i], x) : i \in 1..Len(b)}
 RECURSIVE RhsNamesB(_, _)
 RhsNamesS(s, x) ==
     CASE s.k = "asg" -> IF s.v = x THEN NamesE(s.e) ELSE {}
@@ -743,15 +768,18 @@ Span2(a, b) == IF a = b THEN a
                ELSE IF Both(a, b, {"L", "D"}) THEN "D"                    \* numeric widening
                ELSE IF Both(a, b, {"L", "U"}) THEN "L"
                ELSE IF Both(a, b, {"D", "U"}) THEN "D"
+               ELSE IF Both(a, b, {"D", "I"}) THEN "D"                    \* a Python int widens to double like a C one
+               ELSE IF Both(a, b, {"L", "I"}) THEN "I"
                ELSE "O"
 RECURSIVE SpanAll(_)
 SpanAll(S) == IF Cardinality(S) = 1 THEN CHOOSE t \in S : TRUE
               ELSE LET t == CHOOSE t \in S : TRUE IN Span2(t, SpanAll(S \ {t}))
 SafeSpan(S, marked) ==
     LET t == SpanAll(S) IN
-    IF t \in {"D", "B", "S", "O", "X"} THEN t       \* double / bint / Python object types: always "safe"
-    ELSE IF marked THEN "O"                          \* C integer (long, Py_UCS4) in overflowing arithmetic -> Python object
+    IF t \in {"D", "B", "S", "O", "I", "X"} THEN t       \* double / bint / Python object types: always "safe"
+    ELSE IF marked THEN (IF t = "U" THEN "S" ELSE "O")   \* C integer in overflowing arithmetic -> Python int / str object
     ELSE t
+Gen(t) == IF t = "I" THEN "O" ELSE t        \* which Python object type: not compared
 Static(p) ==
     LET marks == MarkB(p.body)
         fm == {x[1] : x \in {y \in marks : y[2] = "f"}}
@@ -760,10 +788,17 @@ Static(p) ==
         locals == SeqSet(p.locals) \ params
         \* a local is flow-stable when all its assignments have one type: NameNode.infer_type is flow-sensitive otherwise
         stable(x) == x \in params \/ Cardinality(AsgB(p.body, x, p.ty)) <= 1
-        verdict(x) == LET S == AsgB(p.body, x, p.ty) IN
-                      IF S = {} THEN "unassigned"
-                      ELSE IF \E n \in RhsNamesB(p.body, x) \ {x} : ~stable(n) THEN "skipped"
-                      ELSE IF SafeSpan(S, x \in SeqSet(p.mk)) = p.ty[x] THEN "ok" ELSE "mismatch:" \o SafeSpan(S, x \in SeqSet(p.mk)) \o "/" \o p.ty[x]
+        \* an object-typed expression with a float flavour (true division, a C double operand) is a Python float,
+        \* which the inferer turns into a C double ("Python's float type is just a C double")
+        divs(x) == \A e \in RhsB(p.body, x) : Ty(e, p.ty) \notin {"O", "I"} \/ FloatFlavoured(e, p.ty)
+        verdict(x) == LET S == AsgB(p.body, x, p.ty)
+                          ms == SafeSpan(S, x \in SeqSet(p.mk))
+                      IN IF S = {} THEN "unassigned"
+                         ELSE IF p.ty[x] \in {"L", "U"} /\ x \in SeqSet(p.mk) THEN "mismatch:marked_c_int"     \* safe_spanning_type's own guard
+                         ELSE IF "W" \in S \/ (\E n \in RhsNamesB(p.body, x) \ {x} : ~stable(n)) THEN "skipped"
+                         ELSE IF Gen(ms) = Gen(p.ty[x]) THEN "ok"
+                         ELSE IF Gen(ms) = "O" /\ p.ty[x] = "D" /\ divs(x) THEN "ok_float_object"
+                         ELSE "mismatch:" \o ms \o "/" \o p.ty[x]
     IN [pid |-> p.pid, static |-> TRUE,
         frag |-> BlockOK(p.body, p.ty),
         marks |-> fm, lmarks |-> lm,
